@@ -1,5 +1,6 @@
 import Tickit.Model.XTermDrv
 import Tickit.Proof.VT
+import Tickit.Proof.Utf8
 /-
   Helper lemmas about the driver model: `%d` (`showNat` / `showInt`) and its round trip through the VT's decimal
   reader; the driver's control sequences as dispatched commands.
@@ -282,23 +283,40 @@ theorem run_signedSeq_hmove (vt : VTState) (hg : vt.ps = .ground) (r : Int) :
 
 /-! ### Printable ASCII text -/
 
-/-- What the ground state does with a printable ASCII byte (checked over all 256 byte values). -/
-def asciiClassOk (b : UInt8) : Bool :=
-  !(0x20 ≤ b ∧ b < 0x7f) ||
-  (decide (b ≠ 0x1b) && decide (b ≠ 0x0d) && decide (¬ (b = 0x0a ∨ b = 0x0b ∨ b = 0x0c)) && decide (b ≠ 0x08) &&
-   decide (¬ (b < 0x20 ∨ b = 0x7f)) && decide (b < 0x80) && decide (width b.toNat = 1))
+/-- Below U+0300 neither width table is consulted with success: the width is 1 unless the code point is a control. -/
+theorem combining_first : (Width.Table.at Gen.Width.combining 0).1 = 0x300 := by decide +kernel
+theorem fullwidth_first : 0x300 ≤ (Width.Table.at Gen.Width.fullwidth 0).1 := by decide +kernel
 
-theorem ascii_class_all : (List.range 256).all (fun n => asciiClassOk (UInt8.ofNat n)) = true := by decide +kernel
+theorem bisearch_below (t : Width.Table) (c : Nat) (h : c < (t.at 0).1) : Width.bisearch t c = false := by
+  unfold Width.bisearch
+  by_cases hs : t.size = 0
+  · simp [hs]
+  · simp [hs, h]
 
+theorem width_latin (c : Nat) (h0 : 0x20 ≤ c) (h1 : ¬ (0x7f ≤ c ∧ c < 0xa0)) (h2 : c < 0x300) : width c = 1 := by
+  have hf := bisearch_below Gen.Width.fullwidth c (by have := fullwidth_first; omega)
+  have hc := bisearch_below Gen.Width.combining c (by rw [combining_first]; exact h2)
+  have hw : Width.isWideRange c = false := by
+    unfold Width.isWideRange
+    have : ¬ (c ≥ 0x1100) := by omega
+    simp [this]
+  have hz : c ≠ 0 := by omega
+  have hctl : ¬ (c < 32 ∨ (c ≥ 0x7f ∧ c < 0xa0)) := by omega
+  simp [width, Width.wcwidth, Width.mkWcwidth, hf, hc, hw, hz, hctl]
+
+/-- What the ground state does with a printable ASCII byte. -/
 theorem step_ascii (vt : VTState) (hg : vt.ps = .ground) (b : UInt8) (h1 : 0x20 ≤ b) (h2 : b < 0x7f) :
     step vt b = vt.put1 b.toNat := by
-  have hb : UInt8.ofNat b.toNat = b := UInt8.ofNat_toNat
-  have := List.all_eq_true.mp ascii_class_all b.toNat (List.mem_range.mpr (UInt8.toNat_lt b))
-  rw [hb] at this
-  simp only [asciiClassOk, h1, h2, and_self, decide_true, Bool.not_true, Bool.false_or, Bool.and_eq_true,
-    decide_eq_true_eq] at this
-  obtain ⟨⟨⟨⟨⟨⟨a1, a2⟩, a3⟩, a4⟩, a5⟩, a6⟩, a7⟩ := this
-  simp only [step, hg, VTState.groundByte, a1, a2, a3, a4, a5, a6, if_true, if_false, VTState.putGlyph, a7]
+  have n1 : 0x20 ≤ b.toNat := UInt8.le_iff_toNat_le.mp h1
+  have n2 : b.toNat < 0x7f := UInt8.lt_iff_toNat_lt.mp h2
+  have hwd := width_latin b.toNat n1 (by omega) (by omega)
+  have a1 : b.toNat ≠ 0x1b := by omega
+  have a2 : b.toNat ≠ 0x0d := by omega
+  have a3 : ¬ (b.toNat = 0x0a ∨ b.toNat = 0x0b ∨ b.toNat = 0x0c) := by omega
+  have a4 : b.toNat ≠ 0x08 := by omega
+  have a5 : ¬ (b.toNat < 0x20 ∨ b.toNat = 0x7f) := by omega
+  have a6 : b.toNat < 0x80 := by omega
+  simp only [step, hg, VTState.groundByte, a1, a2, a3, a4, a5, a6, if_true, if_false, VTState.putGlyph, hwd]
 
 /-- The cell written by `put1`. -/
 def put1Grid (vt : VTState) (cp : Nat) : Int → Int → Cell :=
@@ -554,5 +572,554 @@ def cexScreen (lines cols : Int) : VTState :=
 def exScreen : VTState := { cexScreen 4 6 with row := 1, col := 2, declrmm := true, rv := true, bg := 3 }
 
 theorem exScreen_wf : Spec.WF exScreen := by constructor <;> decide
+
+/-! ### UTF-8 text: the tokenizer's decoder undoes the library's encoder, and glyphs land cell by cell -/
+
+theorem toNat_ofNat_lt {n : Nat} (h : n < 256) : (UInt8.ofNat n).toNat = n := by
+  rw [UInt8.toNat_ofNat']; omega
+
+theorem width_le_two (cp : Nat) : width cp = 0 ∨ width cp = 1 ∨ width cp = 2 := by
+  unfold width Width.wcwidth Width.mkWcwidth
+  (repeat' split) <;> simp
+
+@[simp] theorem lineFeed_ps (vt : VTState) : vt.lineFeed.ps = vt.ps := by
+  unfold VTState.lineFeed VTState.scrollUp; split
+  · rfl
+  · split <;> rfl
+@[simp] theorem wrap_ps (vt : VTState) : vt.wrap.ps = vt.ps := by
+  show vt.lineFeed.ps = vt.ps; exact lineFeed_ps vt
+@[simp] theorem put1_ps (vt : VTState) (cp : Nat) : (vt.put1 cp).ps = vt.ps := by
+  unfold VTState.put1
+  simp only []
+  (repeat' split) <;> simp
+@[simp] theorem put2_ps (vt : VTState) (cp : Nat) : (vt.put2 cp).ps = vt.ps := by
+  unfold VTState.put2
+  simp only []
+  (repeat' split) <;> simp
+@[simp] theorem putGlyph_ps (vt : VTState) (cp : Nat) : (vt.putGlyph cp).ps = vt.ps := by
+  unfold VTState.putGlyph; split <;> simp
+
+theorem step_ground_glyph (vt : VTState) (hg : vt.ps = .ground) (b : UInt8) (h1 : 0x20 ≤ b.toNat) (h2 : b.toNat < 0x7f) :
+    step vt b = vt.putGlyph b.toNat := by
+  have a1 : b.toNat ≠ 0x1b := by omega
+  have a2 : b.toNat ≠ 0x0d := by omega
+  have a3 : ¬ (b.toNat = 0x0a ∨ b.toNat = 0x0b ∨ b.toNat = 0x0c) := by omega
+  have a4 : b.toNat ≠ 0x08 := by omega
+  have a5 : ¬ (b.toNat < 0x20 ∨ b.toNat = 0x7f) := by omega
+  have a6 : b.toNat < 0x80 := by omega
+  simp only [step, hg, VTState.groundByte, a1, a2, a3, a4, a5, a6, if_true, if_false]
+
+theorem step_ground_lead (vt : VTState) (hg : vt.ps = .ground) (b : UInt8) (h1 : 0xc2 ≤ b.toNat) (h2 : b.toNat ≤ 0xf4) :
+    step vt b =
+      if b.toNat ≤ 0xdf then { vt with ps := .utf8 1 (b.toNat - 0xc0) }
+      else if b.toNat ≤ 0xef then { vt with ps := .utf8 2 (b.toNat - 0xe0) }
+      else { vt with ps := .utf8 3 (b.toNat - 0xf0) } := by
+  have a1 : b.toNat ≠ 0x1b := by omega
+  have a2 : b.toNat ≠ 0x0d := by omega
+  have a3 : ¬ (b.toNat = 0x0a ∨ b.toNat = 0x0b ∨ b.toNat = 0x0c) := by omega
+  have a4 : b.toNat ≠ 0x08 := by omega
+  have a5 : ¬ (b.toNat < 0x20 ∨ b.toNat = 0x7f) := by omega
+  have a6 : ¬ b.toNat < 0x80 := by omega
+  simp only [step, hg, VTState.groundByte, a1, a2, a3, a4, a5, a6, if_false]
+  by_cases c1 : b.toNat ≤ 0xdf
+  · rw [if_pos ⟨h1, c1⟩, if_pos c1]
+  · by_cases c2 : b.toNat ≤ 0xef
+    · rw [if_neg (by omega), if_pos (by omega), if_neg c1, if_pos c2]
+    · rw [if_neg (by omega), if_neg (by omega), if_pos (by omega), if_neg c1, if_neg c2]
+
+theorem step_utf8_cont (vt : VTState) (need acc : Nat) (b : UInt8) (h1 : 0x80 ≤ b.toNat) (h2 : b.toNat ≤ 0xbf) :
+    step { vt with ps := .utf8 need acc } b =
+      if need ≤ 1 then ({ vt with ps := .ground } : VTState).putGlyph (acc * 64 + (b.toNat - 0x80))
+      else { vt with ps := .utf8 (need - 1) (acc * 64 + (b.toNat - 0x80)) } := by
+  simp only [step, h1, h2, and_self, if_true]
+
+theorem decode2 (vt : VTState) (hg : vt.ps = .ground) (b1 b2 : UInt8)
+    (h1 : 0xc2 ≤ b1.toNat ∧ b1.toNat ≤ 0xdf) (h2 : 0x80 ≤ b2.toNat ∧ b2.toNat ≤ 0xbf) :
+    run [b1, b2] vt = vt.putGlyph ((b1.toNat - 0xc0) * 64 + (b2.toNat - 0x80)) := by
+  simp only [run_cons, run_nil]
+  rw [step_ground_lead vt hg b1 (by omega) (by omega), if_pos (by omega),
+    step_utf8_cont vt _ _ b2 h2.1 h2.2, if_pos (by omega), set_ps_self vt _ hg]
+
+theorem decode3 (vt : VTState) (hg : vt.ps = .ground) (b1 b2 b3 : UInt8)
+    (h1 : 0xe0 ≤ b1.toNat ∧ b1.toNat ≤ 0xef) (h2 : 0x80 ≤ b2.toNat ∧ b2.toNat ≤ 0xbf)
+    (h3 : 0x80 ≤ b3.toNat ∧ b3.toNat ≤ 0xbf) :
+    run [b1, b2, b3] vt =
+      vt.putGlyph (((b1.toNat - 0xe0) * 64 + (b2.toNat - 0x80)) * 64 + (b3.toNat - 0x80)) := by
+  simp only [run_cons, run_nil]
+  rw [step_ground_lead vt hg b1 (by omega) (by omega), if_neg (by omega), if_pos (by omega),
+    step_utf8_cont vt _ _ b2 h2.1 h2.2, if_neg (by omega),
+    step_utf8_cont vt _ _ b3 h3.1 h3.2, if_pos (by omega), set_ps_self vt _ hg]
+
+theorem decode4 (vt : VTState) (hg : vt.ps = .ground) (b1 b2 b3 b4 : UInt8)
+    (h1 : 0xf0 ≤ b1.toNat ∧ b1.toNat ≤ 0xf4) (h2 : 0x80 ≤ b2.toNat ∧ b2.toNat ≤ 0xbf)
+    (h3 : 0x80 ≤ b3.toNat ∧ b3.toNat ≤ 0xbf) (h4 : 0x80 ≤ b4.toNat ∧ b4.toNat ≤ 0xbf) :
+    run [b1, b2, b3, b4] vt =
+      vt.putGlyph ((((b1.toNat - 0xf0) * 64 + (b2.toNat - 0x80)) * 64 + (b3.toNat - 0x80)) * 64 + (b4.toNat - 0x80)) := by
+  simp only [run_cons, run_nil]
+  rw [step_ground_lead vt hg b1 (by omega) (by omega), if_neg (by omega), if_neg (by omega),
+    step_utf8_cont vt _ _ b2 h2.1 h2.2, if_neg (by omega),
+    step_utf8_cont vt _ _ b3 h3.1 h3.2, if_neg (by omega),
+    step_utf8_cont vt _ _ b4 h4.1 h4.2, if_pos (by omega), set_ps_self vt _ hg]
+
+/-- The tokenizer decodes what `tickit_utf8_put` encodes: one glyph, the code point itself. -/
+theorem run_putBytes (vt : VTState) (hg : vt.ps = .ground) (cp : Nat) (hp : Spec.Printable cp) :
+    run ((Utf8.putBytes cp).map UInt8.ofNat) vt = vt.putGlyph cp := by
+  obtain ⟨p1, p2, p3⟩ := hp
+  rcases Nat.lt_or_ge cp 0x80 with hA | hA
+  · rw [Utf8.putBytes_1 cp hA]
+    simp only [List.map_cons, List.map_nil, run_cons, run_nil]
+    have e := toNat_ofNat_lt (n := cp) (by omega)
+    rw [step_ground_glyph vt hg _ (by rw [e]; omega) (by rw [e]; omega), e]
+  · rcases Nat.lt_or_ge cp 0x800 with hB | hB
+    · rw [Utf8.putBytes_2 cp hA hB]
+      simp only [List.map_cons, List.map_nil]
+      have e1 := toNat_ofNat_lt (n := 192 + cp / 64) (by omega)
+      have e2 := toNat_ofNat_lt (n := 128 + cp % 64) (by omega)
+      have g1 : 0xc2 ≤ (UInt8.ofNat (192 + cp / 64)).toNat ∧ (UInt8.ofNat (192 + cp / 64)).toNat ≤ 0xdf := by
+        rw [e1]; omega
+      have g2 : 0x80 ≤ (UInt8.ofNat (128 + cp % 64)).toNat ∧ (UInt8.ofNat (128 + cp % 64)).toNat ≤ 0xbf := by
+        rw [e2]; omega
+      rw [decode2 vt hg (UInt8.ofNat (192 + cp / 64)) (UInt8.ofNat (128 + cp % 64)) g1 g2, e1, e2]
+      have : (192 + cp / 64 - 0xc0) * 64 + (128 + cp % 64 - 0x80) = cp := by omega
+      rw [this]
+    · rcases Nat.lt_or_ge cp 0x10000 with hC | hC
+      · rw [Utf8.putBytes_3 cp hB hC]
+        simp only [List.map_cons, List.map_nil]
+        have e1 := toNat_ofNat_lt (n := 224 + cp / 4096) (by omega)
+        have e2 := toNat_ofNat_lt (n := 128 + cp / 64 % 64) (by omega)
+        have e3 := toNat_ofNat_lt (n := 128 + cp % 64) (by omega)
+        have g1 : 0xe0 ≤ (UInt8.ofNat (224 + cp / 4096)).toNat ∧ (UInt8.ofNat (224 + cp / 4096)).toNat ≤ 0xef := by
+          rw [e1]; omega
+        have g2 : 0x80 ≤ (UInt8.ofNat (128 + cp / 64 % 64)).toNat ∧ (UInt8.ofNat (128 + cp / 64 % 64)).toNat ≤ 0xbf := by
+          rw [e2]; omega
+        have g3 : 0x80 ≤ (UInt8.ofNat (128 + cp % 64)).toNat ∧ (UInt8.ofNat (128 + cp % 64)).toNat ≤ 0xbf := by
+          rw [e3]; omega
+        rw [decode3 vt hg (UInt8.ofNat (224 + cp / 4096)) (UInt8.ofNat (128 + cp / 64 % 64)) (UInt8.ofNat (128 + cp % 64))
+          g1 g2 g3, e1, e2, e3]
+        have : ((224 + cp / 4096 - 0xe0) * 64 + (128 + cp / 64 % 64 - 0x80)) * 64 + (128 + cp % 64 - 0x80) = cp := by omega
+        rw [this]
+      · rw [Utf8.putBytes_4 cp hC (by omega)]
+        simp only [List.map_cons, List.map_nil]
+        have e1 := toNat_ofNat_lt (n := 240 + cp / 262144) (by omega)
+        have e2 := toNat_ofNat_lt (n := 128 + cp / 4096 % 64) (by omega)
+        have e3 := toNat_ofNat_lt (n := 128 + cp / 64 % 64) (by omega)
+        have e4 := toNat_ofNat_lt (n := 128 + cp % 64) (by omega)
+        have g1 : 0xf0 ≤ (UInt8.ofNat (240 + cp / 262144)).toNat ∧ (UInt8.ofNat (240 + cp / 262144)).toNat ≤ 0xf4 := by
+          rw [e1]; omega
+        have g2 : 0x80 ≤ (UInt8.ofNat (128 + cp / 4096 % 64)).toNat ∧ (UInt8.ofNat (128 + cp / 4096 % 64)).toNat ≤ 0xbf := by
+          rw [e2]; omega
+        have g3 : 0x80 ≤ (UInt8.ofNat (128 + cp / 64 % 64)).toNat ∧ (UInt8.ofNat (128 + cp / 64 % 64)).toNat ≤ 0xbf := by
+          rw [e3]; omega
+        have g4 : 0x80 ≤ (UInt8.ofNat (128 + cp % 64)).toNat ∧ (UInt8.ofNat (128 + cp % 64)).toNat ≤ 0xbf := by
+          rw [e4]; omega
+        rw [decode4 vt hg (UInt8.ofNat (240 + cp / 262144)) (UInt8.ofNat (128 + cp / 4096 % 64))
+          (UInt8.ofNat (128 + cp / 64 % 64)) (UInt8.ofNat (128 + cp % 64)) g1 g2 g3 g4, e1, e2, e3, e4]
+        have : (((240 + cp / 262144 - 0xf0) * 64 + (128 + cp / 4096 % 64 - 0x80)) * 64 + (128 + cp / 64 % 64 - 0x80)) * 64
+            + (128 + cp % 64 - 0x80) = cp := by omega
+        rw [this]
+
+/-- A whole text: the glyphs are put one after the other. -/
+theorem run_utf8 (cps : List Nat) (hp : ∀ cp ∈ cps, Spec.Printable cp) (vt : VTState) (hg : vt.ps = .ground) :
+    run (Spec.utf8 cps) vt = cps.foldl VTState.putGlyph vt := by
+  induction cps generalizing vt with
+  | nil => rfl
+  | cons cp rest ih =>
+    simp only [Spec.utf8, List.flatMap_cons, run_append, List.foldl_cons]
+    rw [run_putBytes vt hg cp (hp cp (by simp))]
+    exact ih (fun x hx => hp x (by simp [hx])) _ (by simpa using hg)
+
+/-! ### Cells: every glyph of a text lands where the widths say -/
+
+theorem getD_append_lt (a b : List Nat) (i : Nat) (h : i < a.length) : (a ++ b).getD i 32 = a.getD i 32 := by
+  induction a generalizing i with
+  | nil => simp at h
+  | cons x xs ih => cases i with
+    | zero => rfl
+    | succ i => simp only [List.cons_append, List.getD_cons_succ]; exact ih i (by simpa using h)
+
+theorem getD_append_ge (a b : List Nat) (i : Nat) (h : a.length ≤ i) : (a ++ b).getD i 32 = b.getD (i - a.length) 32 := by
+  induction a generalizing i with
+  | nil => simp
+  | cons x xs ih => cases i with
+    | zero => simp at h
+    | succ i =>
+      simp only [List.cons_append, List.getD_cons_succ, List.length_cons]
+      rw [ih i (by simpa using h)]; congr 1; omega
+
+theorem put1_place (vt : VTState) (cp : Nat) (hpw : vt.pendingWrap = false) (hfit : vt.col + 1 ≤ vt.cols) :
+    vt.put1 cp = Spec.placeCells [cp] vt := by
+  by_cases hlast : vt.col + 1 ≥ vt.cols
+  · rw [put1_last vt cp hpw hlast]
+    apply VTState.ext <;> try rfl
+    · funext l c
+      simp only [put1Grid, Spec.placeCells, Spec.cellsGrid, List.length_cons, List.length_nil]
+      by_cases hc : l = vt.row ∧ c = vt.col
+      · have h2 : l = vt.row ∧ vt.col ≤ c ∧ c < vt.col + ((0 + 1 : Nat) : Int) := by omega
+        have e : (c - vt.col).toNat = 0 := by omega
+        rw [if_pos hc, if_pos h2, e]; rfl
+      · have h2 : ¬ (l = vt.row ∧ vt.col ≤ c ∧ c < vt.col + ((0 + 1 : Nat) : Int)) := by omega
+        rw [if_neg hc, if_neg h2]
+    · simp only [Spec.placeCells, List.length_cons, List.length_nil]
+      rw [if_neg (by omega)]; omega
+    · simp only [Spec.placeCells, List.length_cons, List.length_nil]
+      symm; apply decide_eq_true; omega
+  · rw [put1_inner vt cp hpw hlast]
+    apply VTState.ext <;> try rfl
+    · funext l c
+      simp only [put1Grid, Spec.placeCells, Spec.cellsGrid, List.length_cons, List.length_nil]
+      by_cases hc : l = vt.row ∧ c = vt.col
+      · have h2 : l = vt.row ∧ vt.col ≤ c ∧ c < vt.col + ((0 + 1 : Nat) : Int) := by omega
+        have e : (c - vt.col).toNat = 0 := by omega
+        rw [if_pos hc, if_pos h2, e]; rfl
+      · have h2 : ¬ (l = vt.row ∧ vt.col ≤ c ∧ c < vt.col + ((0 + 1 : Nat) : Int)) := by omega
+        rw [if_neg hc, if_neg h2]
+    · simp only [Spec.placeCells, List.length_cons, List.length_nil]
+      rw [if_pos (by omega)]; omega
+    · simp only [Spec.placeCells, List.length_cons, List.length_nil]
+      rw [hpw]; symm; apply decide_eq_false; omega
+
+theorem put2_place (vt : VTState) (cp : Nat) (hpw : vt.pendingWrap = false) (hfit : vt.col + 2 ≤ vt.cols) :
+    vt.put2 cp = Spec.placeCells [cp, 0] vt := by
+  have hnw : ¬ (vt.pendingWrap = true ∨ vt.col + 2 > vt.cols) := by rw [hpw]; simp; omega
+  unfold VTState.put2
+  simp only [hnw, if_false]
+  by_cases hlast : vt.col + 2 ≥ vt.cols
+  · rw [if_pos hlast]
+    apply VTState.ext <;> try rfl
+    · funext l c
+      simp only [Spec.placeCells, Spec.cellsGrid, List.length_cons, List.length_nil]
+      by_cases hc : l = vt.row ∧ c = vt.col
+      · have h2 : l = vt.row ∧ vt.col ≤ c ∧ c < vt.col + ((0 + 1 + 1 : Nat) : Int) := by omega
+        have e : (c - vt.col).toNat = 0 := by omega
+        rw [if_pos hc, if_pos h2, e]; rfl
+      · rw [if_neg hc]
+        by_cases hc2 : l = vt.row ∧ c = vt.col + 1 ∧ c < vt.cols
+        · have h2 : l = vt.row ∧ vt.col ≤ c ∧ c < vt.col + ((0 + 1 + 1 : Nat) : Int) := by omega
+          have e : (c - vt.col).toNat = 1 := by omega
+          rw [if_pos hc2, if_pos h2, e]; rfl
+        · have h2 : ¬ (l = vt.row ∧ vt.col ≤ c ∧ c < vt.col + ((0 + 1 + 1 : Nat) : Int)) := by omega
+          rw [if_neg hc2, if_neg h2]
+    · simp only [Spec.placeCells, List.length_cons, List.length_nil]
+      rw [if_neg (by omega)]
+    · simp only [Spec.placeCells, List.length_cons, List.length_nil]
+      symm; apply decide_eq_true; omega
+  · rw [if_neg hlast]
+    apply VTState.ext <;> try rfl
+    · funext l c
+      simp only [Spec.placeCells, Spec.cellsGrid, List.length_cons, List.length_nil]
+      by_cases hc : l = vt.row ∧ c = vt.col
+      · have h2 : l = vt.row ∧ vt.col ≤ c ∧ c < vt.col + ((0 + 1 + 1 : Nat) : Int) := by omega
+        have e : (c - vt.col).toNat = 0 := by omega
+        rw [if_pos hc, if_pos h2, e]; rfl
+      · rw [if_neg hc]
+        by_cases hc2 : l = vt.row ∧ c = vt.col + 1 ∧ c < vt.cols
+        · have h2 : l = vt.row ∧ vt.col ≤ c ∧ c < vt.col + ((0 + 1 + 1 : Nat) : Int) := by omega
+          have e : (c - vt.col).toNat = 1 := by omega
+          rw [if_pos hc2, if_pos h2, e]; rfl
+        · have h2 : ¬ (l = vt.row ∧ vt.col ≤ c ∧ c < vt.col + ((0 + 1 + 1 : Nat) : Int)) := by omega
+          rw [if_neg hc2, if_neg h2]
+    · simp only [Spec.placeCells, List.length_cons, List.length_nil]
+      rw [if_pos (by omega)]; omega
+    · simp only [Spec.placeCells, List.length_cons, List.length_nil]
+      rw [hpw]; symm; apply decide_eq_false; omega
+
+/-- Placing `a` and then `b` is placing `a ++ b`, as long as `a` stops short of the right edge. -/
+theorem placeCells_append (vt : VTState) (a b : List Nat) (hroom : vt.col + a.length < vt.cols) :
+    Spec.placeCells b (Spec.placeCells a vt) = Spec.placeCells (a ++ b) vt := by
+  have hcol : (Spec.placeCells a vt).col = vt.col + a.length := by
+    simp only [Spec.placeCells]; rw [if_pos hroom]
+  apply VTState.ext <;> try rfl
+  · funext l c
+    simp only [Spec.placeCells, Spec.cellsGrid, List.length_append, if_pos hroom]
+    by_cases h1 : l = vt.row ∧ vt.col + ↑a.length ≤ c ∧ c < vt.col + ↑a.length + ↑b.length
+    · have h2 : l = vt.row ∧ vt.col ≤ c ∧ c < vt.col + ((a.length + b.length : Nat) : Int) := by omega
+      rw [if_pos h1, if_pos h2, getD_append_ge a b _ (by omega)]
+      congr 2; omega
+    · rw [if_neg h1]
+      by_cases h3 : l = vt.row ∧ vt.col ≤ c ∧ c < vt.col + ↑a.length
+      · have h2 : l = vt.row ∧ vt.col ≤ c ∧ c < vt.col + ((a.length + b.length : Nat) : Int) := by omega
+        rw [if_pos h3, if_pos h2, getD_append_lt a b _ (by omega)]
+      · have h2 : ¬ (l = vt.row ∧ vt.col ≤ c ∧ c < vt.col + ((a.length + b.length : Nat) : Int)) := by omega
+        rw [if_neg h3, if_neg h2]
+  · simp only [Spec.placeCells, List.length_append, if_pos hroom]
+    split <;> split <;> omega
+  · simp only [Spec.placeCells, List.length_append, if_pos hroom]
+    congr 1; apply propext; constructor <;> intro h <;> omega
+
+theorem cellsOf_cases (cp : Nat) :
+    (width cp = 0 ∧ Spec.cellsOf cp = []) ∨ (width cp = 1 ∧ Spec.cellsOf cp = [cp]) ∨
+    (width cp = 2 ∧ Spec.cellsOf cp = [cp, 0]) := by
+  unfold Spec.cellsOf
+  rcases width_le_two cp with h | h | h <;> simp [h]
+
+/-- Zero-width characters change nothing. -/
+theorem foldl_zero_width (cps : List Nat) (h : Spec.textCells cps = []) (vt : VTState) :
+    cps.foldl VTState.putGlyph vt = vt := by
+  induction cps generalizing vt with
+  | nil => rfl
+  | cons cp rest ih =>
+    simp only [Spec.textCells, List.flatMap_cons, List.append_eq_nil_iff] at h
+    rcases cellsOf_cases cp with ⟨hw, _⟩ | ⟨_, hc⟩ | ⟨_, hc⟩
+    · simp only [List.foldl_cons, VTState.putGlyph, hw]
+      exact ih h.2 vt
+    · rw [hc] at h; exact absurd h.1 (by simp)
+    · rw [hc] at h; exact absurd h.1 (by simp)
+
+/-- Putting the glyphs of a text that fits in the row, one after the other, places exactly its cells. -/
+theorem foldl_putGlyph (cps : List Nat) (vt : VTState) (hpw : vt.pendingWrap = false) (hcol : vt.col < vt.cols)
+    (hfit : vt.col + (Spec.textCells cps).length ≤ vt.cols) :
+    cps.foldl VTState.putGlyph vt = Spec.placeCells (Spec.textCells cps) vt := by
+  induction cps generalizing vt with
+  | nil =>
+    simp only [List.foldl_nil, Spec.textCells, List.flatMap_nil]
+    apply VTState.ext <;> try rfl
+    · funext l c
+      simp only [Spec.placeCells, Spec.cellsGrid, List.length_nil]
+      rw [if_neg (by omega)]
+    · simp only [Spec.placeCells, List.length_nil]; rw [if_pos (by omega)]; omega
+    · simp only [Spec.placeCells, List.length_nil]; rw [hpw]; symm; apply decide_eq_false; omega
+  | cons cp rest ih =>
+    have htc : Spec.textCells (cp :: rest) = Spec.cellsOf cp ++ Spec.textCells rest := by
+      simp [Spec.textCells]
+    rw [htc] at hfit ⊢
+    simp only [List.length_append] at hfit
+    simp only [List.foldl_cons]
+    have key : ∀ a : List Nat, a ≠ [] → vt.putGlyph cp = Spec.placeCells a vt → Spec.cellsOf cp = a →
+        rest.foldl VTState.putGlyph (vt.putGlyph cp) = Spec.placeCells (a ++ Spec.textCells rest) vt := by
+      intro a hne hput hca
+      rw [hca] at hfit
+      rw [hput]
+      by_cases hroom : vt.col + a.length < vt.cols
+      · rw [ih (Spec.placeCells a vt)
+          (by simp only [Spec.placeCells]; apply decide_eq_false; omega)
+          (by simp only [Spec.placeCells]; rw [if_pos hroom]; exact hroom)
+          (by simp only [Spec.placeCells]; rw [if_pos hroom]; omega)]
+        exact placeCells_append vt a _ hroom
+      · have hz : Spec.textCells rest = [] := by
+          cases hr : Spec.textCells rest with
+          | nil => rfl
+          | cons _ _ => rw [hr] at hfit; simp only [List.length_cons] at hfit; omega
+        rw [foldl_zero_width rest hz, hz, List.append_nil]
+    rcases cellsOf_cases cp with ⟨hw, hc⟩ | ⟨hw, hc⟩ | ⟨hw, hc⟩
+    · rw [hc, List.nil_append]
+      have : vt.putGlyph cp = vt := by simp only [VTState.putGlyph, hw]
+      rw [this]
+      rw [hc] at hfit
+      exact ih vt hpw hcol (by simpa using hfit)
+    · rw [hc]
+      refine key [cp] (by simp) ?_ hc
+      have : vt.putGlyph cp = vt.put1 cp := by simp only [VTState.putGlyph, hw]
+      rw [this]
+      rw [hc] at hfit
+      exact put1_place vt cp hpw (by simp only [List.length_cons, List.length_nil] at hfit; omega)
+    · rw [hc]
+      refine key [cp, 0] (by simp) ?_ hc
+      have : vt.putGlyph cp = vt.put2 cp := by simp only [VTState.putGlyph, hw]
+      rw [this]
+      rw [hc] at hfit
+      exact put2_place vt cp hpw (by simp only [List.length_cons, List.length_nil] at hfit; omega)
+
+/-! ### SGR: the bytes of `chpen` as a fold over the parameter list -/
+
+/-- One driver parameter fed to the SGR interpreter: a parameter marked `CSI_MORE_SUBPARAM` joins the next one
+    in the same group when the terminal takes colons, otherwise it is a parameter of its own. -/
+def pstep (colon : Bool) (s : SgrAcc × List (Option Nat)) (p : SgrParam) : SgrAcc × List (Option Nat) :=
+  if (p.more && colon) = true then (s.1, s.2 ++ [some p.val.toNat])
+  else (sgrStep s.1 (s.2 ++ [some p.val.toNat]), [])
+
+/-- The last parameter closes its group whatever its mark says. -/
+def pfinish (s : SgrAcc × List (Option Nat)) : SgrAcc := if s.2 = [] then s.1 else sgrStep s.1 s.2
+
+/-- The wire form of a parameter list. -/
+def sepOf (colon : Bool) (ps : List SgrParam) : List (List UInt8 × Bool) :=
+  ps.map fun p => (showInt p.val, p.more && colon)
+
+theorem renderSgr_eq (colon : Bool) (ps : List SgrParam) : renderSgr colon ps = joinSep (sepOf colon ps) ++ [0x6d] := by
+  induction ps with
+  | nil => rfl
+  | cons p rest ih =>
+    cases rest with
+    | nil => simp [renderSgr, sepOf, joinSep]
+    | cons q rest =>
+      simp only [renderSgr, sepOf, List.map_cons, joinSep, List.append_assoc]
+      simp only [sepOf, List.map_cons] at ih
+      rw [ih]
+      simp [Bool.and_eq_true]
+
+theorem groups_fold (colon : Bool) (ps : List SgrParam) (hne : ps ≠ []) (hnn : ∀ p ∈ ps, 0 ≤ p.val)
+    (acc : SgrAcc) (sub : List (Option Nat)) :
+    (groupsOf sub (sepOf colon ps)).foldl sgrStep acc = pfinish (ps.foldl (pstep colon) (acc, sub)) := by
+  induction ps generalizing acc sub with
+  | nil => exact absurd rfl hne
+  | cons p rest ih =>
+    have hv : paramVal (showInt p.val) = some p.val.toNat := by
+      rw [showInt_of_nonneg (hnn p (by simp)), paramVal_showNat]
+    cases rest with
+    | nil =>
+      simp only [sepOf, List.map_cons, List.map_nil, groupsOf, List.foldl_cons, List.foldl_nil, hv, pstep, pfinish]
+      by_cases hf : (p.more && colon) = true
+      · simp [hf]
+      · simp [hf]
+    | cons q rest =>
+      have ih' := ih (by simp) (fun x hx => hnn x (by simp [hx]))
+      simp only [sepOf, List.map_cons, groupsOf, hv] at ih' ⊢
+      rw [List.foldl_cons (f := pstep colon)]
+      by_cases hf : (p.more && colon) = true
+      · simp only [hf, if_true, pstep]
+        exact ih' acc (sub ++ [some p.val.toNat])
+      · simp only [hf, if_false, pstep, List.foldl_cons]
+        exact ih' (sgrStep acc (sub ++ [some p.val.toNat])) []
+
+/-- `ESC [ … m` as the driver renders it acts on background and reverse video as the fold says. -/
+theorem run_renderSgr (vt : VTState) (hg : vt.ps = .ground) (colon : Bool) (ps : List SgrParam) (hne : ps ≠ [])
+    (hnn : ∀ p ∈ ps, 0 ≤ p.val) :
+    run (csi (renderSgr colon ps)) vt =
+      { vt with bg := (pfinish (ps.foldl (pstep colon) (⟨vt.bg, vt.rv, .none⟩, []))).bg,
+                rv := (pfinish (ps.foldl (pstep colon) (⟨vt.bg, vt.rv, .none⟩, []))).rv } := by
+  have hm : classify 0x6d = .final := by decide
+  rw [renderSgr_eq]
+  unfold csi
+  rw [run_csi_sep vt hg (sepOf colon ps) (by simpa [sepOf] using hne) (by
+        intro x hx b hb
+        obtain ⟨q, hq, rfl⟩ := List.mem_map.mp hx
+        simp only at hb
+        rw [showInt_of_nonneg (hnn q hq)] at hb
+        exact showNat_digits _ b hb) 0x6d hm, dispatch_sgr]
+  simp only [VTState.sgr, groups_fold colon ps hne hnn]
+
+/-- `ESC [ m`. -/
+theorem run_sgr_reset (vt : VTState) (hg : vt.ps = .ground) :
+    run (csi [0x6d]) vt = { vt with bg := -1, rv := false } := by
+  rw [run_csi_0 vt hg 0x6d (by decide), dispatch_sgr]
+  simp [VTState.sgr, sgrStep]
+
+/-! The pieces the pen model assembles its parameter list from. -/
+
+abbrev PS := SgrAcc × List (Option Nat)
+
+theorem fold_ite {α β : Type} (f : β → α → β) (c : Bool) (l : List α) (s : β) :
+    (if c = true then l else []).foldl f s = if c = true then l.foldl f s else s := by
+  cases c <;> simp
+
+theorem piece_fg (colon : Bool) (bg : Int) (rv : Bool) :
+    ([⟨39, false⟩] : List SgrParam).foldl (pstep colon) (⟨bg, rv, .none⟩, []) = (⟨bg, rv, .none⟩, []) := by
+  simp [pstep, sgrStep]
+
+theorem piece_bui (colon : Bool) (bg : Int) (rv : Bool) :
+    ([⟨22, false⟩, ⟨24, false⟩, ⟨23, false⟩] : List SgrParam).foldl (pstep colon) (⟨bg, rv, .none⟩, []) =
+      (⟨bg, rv, .none⟩, []) := by
+  simp [pstep, sgrStep]
+
+theorem piece_tail (colon : Bool) (bg : Int) (rv : Bool) :
+    ([⟨29, false⟩, ⟨10, false⟩, ⟨25, false⟩, ⟨75, false⟩] : List SgrParam).foldl (pstep colon) (⟨bg, rv, .none⟩, []) =
+      (⟨bg, rv, .none⟩, []) := by
+  simp [pstep, sgrStep]
+
+theorem piece_rv (colon : Bool) (bg : Int) (rv v : Bool) :
+    ([⟨if v = true then 7 else 27, false⟩] : List SgrParam).foldl (pstep colon) (⟨bg, rv, .none⟩, []) =
+      (⟨bg, v, .none⟩, []) := by
+  cases v <;> simp [pstep, sgrStep]
+
+theorem piece_bg (colon : Bool) (bg : Int) (rv : Bool) (v : Int) (h0 : -1 ≤ v) (h1 : v ≤ 255) :
+    (bgParams v).foldl (pstep colon) (⟨bg, rv, .none⟩, []) = (⟨v, rv, .none⟩, []) := by
+  unfold bgParams
+  by_cases c0 : v < 0
+  · have : v = -1 := by omega
+    subst this
+    simp [pstep, sgrStep]
+  · by_cases c1 : v < 8
+    · simp only [c0, c1, if_true, if_false, List.foldl_cons, List.foldl_nil, pstep, Bool.false_and, Bool.false_eq_true,
+        List.nil_append]
+      have e : (40 + v).toNat = 40 + v.toNat := by omega
+      have a1 : ¬ (40 + v.toNat = 0) := by omega
+      have a2 : ¬ (40 + v.toNat = 7) := by omega
+      have a3 : ¬ (40 + v.toNat = 27) := by omega
+      have a4 : 40 ≤ 40 + v.toNat ∧ 40 + v.toNat ≤ 47 := by omega
+      have e2 : ((40 + v.toNat - 40 : Nat) : Int) = v := by omega
+      simp only [sgrStep, Option.getD_some, e, a1, a2, a3, if_false, ne_eq, not_true_eq_false]
+      rw [if_pos a4, e2]
+    · by_cases c2 : v < 16
+      · simp only [c0, c1, c2, if_true, if_false, List.foldl_cons, List.foldl_nil, pstep, Bool.false_and,
+          Bool.false_eq_true, List.nil_append]
+        have e : (40 + 60 + v - 8).toNat = 92 + v.toNat := by omega
+        have a1 : ¬ (92 + v.toNat = 0) := by omega
+        have a2 : ¬ (92 + v.toNat = 7) := by omega
+        have a3 : ¬ (92 + v.toNat = 27) := by omega
+        have a4 : ¬ (40 ≤ 92 + v.toNat ∧ 92 + v.toNat ≤ 47) := by omega
+        have a5 : 100 ≤ 92 + v.toNat ∧ 92 + v.toNat ≤ 107 := by omega
+        have e2 : ((92 + v.toNat - 100 + 8 : Nat) : Int) = v := by omega
+        simp only [sgrStep, Option.getD_some, e, a1, a2, a3, if_false, ne_eq, not_true_eq_false]
+        rw [if_neg a4, if_pos a5, e2]
+      · simp only [c0, c1, c2, if_false, List.foldl_cons, List.foldl_nil, pstep]
+        have hv : ((v.toNat : Nat) : Int) = v := by omega
+        cases colon
+        · simp [sgrStep, hv]
+        · simp [sgrStep, sgrExtBgColon, hv]
+
+theorem bgParams_nonneg (v : Int) (h0 : -1 ≤ v) : ∀ p ∈ bgParams v, 0 ≤ p.val := by
+  unfold bgParams
+  intro p hp
+  (repeat' split at hp) <;> simp at hp <;> (try rcases hp with hp | hp | hp) <;> subst_vars <;> simp <;> omega
+
+theorem setpenParams_nonneg (o cb cr : Bool) (bgv : Int) (rvv : Bool) (h0 : -1 ≤ bgv) :
+    ∀ p ∈ setpenParams o cb cr bgv rvv, 0 ≤ p.val := by
+  intro p hp
+  unfold setpenParams at hp
+  simp only [List.mem_append] at hp
+  rcases hp with (((hp | hp) | hp) | hp) | hp
+  · cases o <;> simp at hp; subst hp; decide
+  · cases cb <;> simp at hp; exact bgParams_nonneg bgv h0 p hp
+  · cases o <;> simp at hp; rcases hp with hp | hp | hp <;> subst hp <;> decide
+  · cases cr <;> simp at hp; subst hp; cases rvv <;> decide
+  · cases o <;> simp at hp; rcases hp with hp | hp | hp | hp <;> subst hp <;> decide
+
+/-- What the parameter list of a pen change does to background and reverse video. -/
+theorem setpenParams_fold (colon o cb cr : Bool) (bgv : Int) (rvv : Bool) (h0 : -1 ≤ bgv) (h1 : bgv ≤ 255)
+    (bg : Int) (rv : Bool) :
+    (setpenParams o cb cr bgv rvv).foldl (pstep colon) (⟨bg, rv, .none⟩, []) =
+      (⟨if cb = true then bgv else bg, if cr = true then rvv else rv, .none⟩, []) := by
+  unfold setpenParams
+  simp only [List.foldl_append, fold_ite, piece_fg, piece_bui, piece_tail, ite_self]
+  cases cb
+  · cases cr
+    · simp only [Bool.false_eq_true, if_false, piece_bui, piece_tail, ite_self]
+    · simp only [Bool.false_eq_true, if_false, if_true, piece_bui, piece_rv, piece_tail, ite_self]
+  · cases cr
+    · simp only [Bool.false_eq_true, if_false, if_true, piece_bg colon bg rv bgv h0 h1, piece_bui, piece_tail, ite_self]
+    · simp only [if_true, piece_bg colon bg rv bgv h0 h1, piece_bui, piece_rv, piece_tail, ite_self]
+
+theorem setpenParams_eq_nil (o cb cr : Bool) (bgv : Int) (rvv : Bool) :
+    setpenParams o cb cr bgv rvv = [] ↔ (o = false ∧ cb = false ∧ cr = false) := by
+  unfold setpenParams bgParams
+  cases o <;> cases cb <;> cases cr <;> simp <;> (repeat' split) <;> simp
+
+/-- The bytes of a pen change, interpreted. -/
+theorem run_chpenBytes (vt : VTState) (hg : vt.ps = .ground) (colon o cb cr : Bool) (bgv : Int) (rvv : Bool)
+    (h0 : -1 ≤ bgv) (h1 : bgv ≤ 255) (final : PenCache) :
+    run (chpenBytes colon (setpenParams o cb cr bgv rvv) final) vt =
+      if o = false ∧ cb = false ∧ cr = false then vt
+      else if final.nondefault = false then { vt with bg := -1, rv := false }
+      else { vt with bg := if cb = true then bgv else vt.bg, rv := if cr = true then rvv else vt.rv } := by
+  unfold chpenBytes
+  by_cases hnil : setpenParams o cb cr bgv rvv = []
+  · rw [if_pos hnil, if_pos ((setpenParams_eq_nil o cb cr bgv rvv).mp hnil)]; rfl
+  · rw [if_neg hnil, if_neg (fun h => hnil ((setpenParams_eq_nil o cb cr bgv rvv).mpr h))]
+    cases hnd : final.nondefault
+    · simp only [Bool.not_false, if_true]
+      exact run_sgr_reset vt hg
+    · simp only [Bool.not_true, Bool.false_eq_true, if_false]
+      rw [run_renderSgr vt hg colon _ hnil (setpenParams_nonneg o cb cr bgv rvv h0),
+        setpenParams_fold colon o cb cr bgv rvv h0 h1]
+      rfl
+
+theorem nondefault_false (o : Bool) (b : Option Int) (r : Option Bool) (h : (PenCache.mk o b r).nondefault = false) :
+    (∀ v, b = some v → v = -1) ∧ r.getD false = false := by
+  simp only [PenCache.nondefault, Bool.or_eq_false_iff] at h
+  refine ⟨?_, h.2⟩
+  intro v hv
+  subst hv
+  have := h.1
+  simp only [ne_eq, decide_not, Bool.not_eq_false', decide_eq_true_eq] at this
+  exact this
 
 end Tickit.XTermDrv
